@@ -39,6 +39,7 @@ type ProjectRunner struct {
 	statesMutex       sync.Mutex
 	processStates     map[string]*types.ProcessState
 	runProcMutex      sync.Mutex
+	startMutex        sync.Mutex
 	runningProcesses  map[string]*Process
 	doneProcMutex     sync.Mutex
 	doneProcesses     map[string]*Process
@@ -336,11 +337,18 @@ func (p *ProjectRunner) getDoneOrRunningProcess(name string) *Process {
 
 func (p *ProjectRunner) removeRunningProcess(process *Process) {
 	p.runProcMutex.Lock()
-	delete(p.runningProcesses, process.getName())
+	// a newer instance may already be registered under the same name
+	if p.runningProcesses[process.getName()] == process {
+		delete(p.runningProcesses, process.getName())
+	}
 	p.runProcMutex.Unlock()
 }
 
 func (p *ProjectRunner) StartProcess(name string) error {
+	// "is it running?" and the registration of the new instance must be
+	// atomic with respect to other start / restart requests
+	p.startMutex.Lock()
+	defer p.startMutex.Unlock()
 	proc := p.getRunningProcess(name)
 	if proc != nil {
 		log.Error().Msgf("Process %s is already running", name)
@@ -397,6 +405,8 @@ func (p *ProjectRunner) StopProcesses(names []string) (map[string]string, error)
 
 func (p *ProjectRunner) RestartProcess(name string) error {
 	log.Debug().Msgf("Restarting %s", name)
+	p.startMutex.Lock()
+	defer p.startMutex.Unlock()
 	proc := p.getRunningProcess(name)
 	if proc != nil {
 		err := proc.shutDownNoRestart()
